@@ -142,9 +142,18 @@ pub fn record_sat(args: &Args) {
     // --labels K: the solver works over K labels; the variables of each recorded CNF sit on scattered labels (two of them
     // congruent modulo 64, some beyond 63); the record is written in the compact numbering, so the specification is unchanged
     let nlabels = args.num("labels", 0) as usize;
+    // --bulk N: the solver's CNF starts with the unit clause (z) and N copies of (z | f) over two fresh variables (satisfied from the
+    // start, never decided), so that the recorded clauses are literal occurrences number 2N+2 and up; the record shows the recorded
+    // clauses only (their residuals are the residuals of the whole formula). The implementation-shaped predictions (watch lists, numeric
+    // hash) do not apply to such a record: `nol2`.
+    let bulk = args.num("bulk", 0) as usize;
     let mut out = Out::new(&args.str("out", "-"));
     let mut rng = Rng::new(seed ^ 0x5a7);
-    out.emit(json!({"ev": "init", "kind": "sat", "nmax": nmax, "seed": seed}));
+    if bulk > 0 {
+        out.emit(json!({"ev": "init", "kind": "sat", "nmax": nmax, "seed": seed, "nol2": true, "bulk": bulk}));
+    } else {
+        out.emit(json!({"ev": "init", "kind": "sat", "nmax": nmax, "seed": seed}));
+    }
     for _ in 0..segs {
         let mut script: std::collections::VecDeque<Option<(usize, bool)>> = Default::default();
         let mut c = if wide { wide_cnf(&mut rng, nmax, 25) } else { rand_cnf(&mut rng, nmax, 8, 25) };
@@ -183,10 +192,21 @@ pub fn record_sat(args: &Args) {
         };
         let lab = |v: usize| if emb.is_empty() { v } else { emb[v] };
         let unlab = |l: usize| if emb.is_empty() { l as i64 } else { emb.iter().position(|x| *x == l).map(|i| i as i64).unwrap_or(900 + l as i64) };
-        let cnf = mk_cnf(&c.iter().map(|cl| cl.iter().map(|(v, p)| (lab(*v), *p)).collect()).collect::<Vec<Vec<(usize, bool)>>>());
+        let mut real: Vec<Vec<(usize, bool)>> = c.iter().map(|cl| cl.iter().map(|(v, p)| (lab(*v), *p)).collect()).collect();
+        // --bulk 1: per solver, a size that puts the 54th / 55th or the 6 542nd / 6 543rd literal occurrence (the last prime below 2^8 /
+        // 2^16 and the first one above) on one of the first literals of the recorded clauses
+        let bulk = if bulk == 1 { *rng.pick(&[22usize, 23, 24, 25, 26, 3266, 3267, 3268, 3269, 3270]) } else { bulk };
+        if bulk > 0 && emb.is_empty() && nv0 > 0 {
+            let mut pre: Vec<Vec<(usize, bool)>> = vec![vec![(nv0, true)]];
+            pre.extend((0..bulk).map(|_| vec![(nv0, true), (nv0 + 1, true)]));
+            pre.extend(real);
+            real = pre;
+        }
+        let nbulk = if bulk > 0 && emb.is_empty() && nv0 > 0 { bulk + 1 } else { 0 };
+        let cnf = mk_cnf(&real);
         let nv = nv0;
         // the stored clause list (literal order as the library keeps it), written in the compact numbering
-        let stored: Vec<Vec<i64>> = cnf.clauses().iter().map(|cl| cl.iter().map(|l| { let v = unlab(l.label().value_usize()) + 1; if l.polarity() { v } else { -v } }).collect()).collect();
+        let stored: Vec<Vec<i64>> = cnf.clauses().iter().skip(nbulk).map(|cl| cl.iter().map(|l| { let v = unlab(l.label().value_usize()) + 1; if l.polarity() { v } else { -v } }).collect()).collect();
         let mut ev = json!({"ev": "snew", "nv": nv, "cnf": stored});
         if !emb.is_empty() {
             ev["emb"] = json!(emb);
